@@ -16,11 +16,16 @@
       edge it used -- no "only edge into its head" restriction (`assign_longest_exact`, `assign_fixed_exact`);
     * the even split of `assign_stretchy1` closes the gap between the two known gnodes iff
       `n·(W − E) = (n − m)·(sep − E)` (`even_split_closes_iff`): it always does when the path the positions are assigned
-      along is itself a longest path with as many stretchy edges (`even_split_tight`), and it does NOT when that path is
-      shorter than the longest one and there is slack (`even_split_misses`) -- the mechanism of finding C20-F20b.
+      along is itself a longest path with as many stretchy edges (`even_split_tight`), it stops short when that path is
+      shorter (`even_split_misses`) and it overshoots -- the closing edge gets too short -- iff
+      `n·(E − W) < (m − n)·(sep − E)` (`even_split_overshoots_iff`).
   Not proved (said plainly): a GLOBAL structural characterisation of the graphs on which the whole worklist
-  (`assign_stretchy`, several interleaved steps) leaves no conflict.  The executable predicate is
-  `(solve g).conflicts ≠ []`, decided by `solve_conflicts_iff`; the local theorems above say which single step breaks.
+  (`assign_stretchy`, several interleaved steps) leaves no conflict -- finding C20-F20b stays an observed finding.  The
+  executable predicate is `(solve g).conflicts ≠ []`, decided by `solve_conflicts_iff`.  The harness counts, for every
+  conflict on the real graphs, which local mechanism is present (a non-closing split; a dangling gnode placed at the
+  distance of a path THROUGH other still unplaced gnodes, as in the recorded F20b example): most conflicts show neither
+  -- they are chords between gnodes assigned in different steps, which no step looks at (the TODO in the code).  What is
+  missing for an exact iff is an invariant that relates the positions assigned by different worklist steps.
 -/
 import Lcapy.Proofs.LayoutPlacer
 
@@ -129,8 +134,31 @@ theorem even_split_tight (fp tp E : Rat) (n : Nat) (hn : 0 < n) :
     fp + E + (n : Rat) * ((tp - fp - E) / (n : Rat)) = tp := by
   rw [even_split_closes_iff fp tp E E n n hn]; ring
 
-/-- the defect: a walk that is SHORTER than the longest path but has as many stretchy edges never arrives (the last
-    edge into the known gnode is drawn with the wrong length) -/
+/-- the walk OVERSHOOTS the known gnode -- so that the closing edge is drawn shorter than planned, a violation as soon as
+    the overshoot exceeds that edge's own stretch -- iff it has more stretchy edges than the longest path and
+    `n·(E − W) < (m − n)·(sep − E)` -/
+theorem even_split_overshoots_iff (fp tp E W : Rat) (n m : Nat) (hn : 0 < n) :
+    tp < fp + W + (m : Rat) * ((tp - fp - E) / (n : Rat)) ↔
+      (n : Rat) * (E - W) < ((m : Rat) - (n : Rat)) * (tp - fp - E) := by
+  have hn' : (0 : Rat) < (n : Rat) := by exact_mod_cast hn
+  have e : fp + W + (m : Rat) * ((tp - fp - E) / (n : Rat)) - tp =
+      (((m : Rat) - (n : Rat)) * (tp - fp - E) - (n : Rat) * (E - W)) / (n : Rat) := by
+    field_simp; ring
+  constructor
+  · intro h
+    have h1 : 0 < (((m : Rat) - (n : Rat)) * (tp - fp - E) - (n : Rat) * (E - W)) / (n : Rat) := by rw [← e]; linarith
+    by_contra hle
+    have hle' : ((m : Rat) - (n : Rat)) * (tp - fp - E) - (n : Rat) * (E - W) ≤ 0 := by linarith [not_lt.mp hle]
+    have := div_nonpos_of_nonpos_of_nonneg hle' (le_of_lt hn')
+    linarith
+  · intro h
+    have h1 : 0 < (((m : Rat) - (n : Rat)) * (tp - fp - E) - (n : Rat) * (E - W)) / (n : Rat) :=
+      div_pos (by linarith) hn'
+    rw [← e] at h1; linarith
+
+/-- a walk that is SHORTER than the longest path but has as many stretchy edges never arrives exactly: it stops short by
+    `E − W`, and the closing edge is drawn that much longer than its size (harmless when it is stretchy, a violation when
+    it is fixed) -/
 theorem even_split_misses (fp tp E W : Rat) (n : Nat) (hn : 0 < n) (hW : W < E) :
     fp + W + (n : Rat) * ((tp - fp - E) / (n : Rat)) ≠ tp := by
   rw [Ne, even_split_closes_iff fp tp E W n n hn]
